@@ -86,6 +86,11 @@ func init() {
 				Desc: "build with actor.defaultThroughput rewritten to 3 (declared parameter change): an actor that sends itself the next tick from every tick (8 ticks) plus an outside sender (2 messages), so that one worker runs past the throughput budget without ever finding the inbox empty; quiet engine, receivers yield: one Receive at a time, each after the previous, every message once, idle and empty at the end",
 				Make: func() vsched.Instance { return engSelfSend(8, 2) }})
 		}
+		for _, prop := range []string{"C02", "C08"} {
+			Register(&Job{Name: prop + "/engine/slow-child", Prop: prop, Bound: 2, BoundT: 3, Budget: 40, BudgetT: 600,
+				Desc: "a parent is poisoned/stopped while its child is busy with one message for 5 s of virtual time: the parent waits; the child's Receive calls do not overlap, its Stopped comes after the message it was busy with, exactly once, and before the parent's",
+				Make: func() vsched.Instance { return engSlowChild([]int{1, 2}) }})
+		}
 		for _, prop := range []string{"C01", "C02", "C05"} {
 			Register(&Job{Name: prop + "/engine/restart-late-senders", Prop: prop, Bound: 2, BoundT: 3, Budget: 40, BudgetT: 600,
 				Desc: "message 0 panics once with 0-1 messages queued behind it; the crashing Receive starts a thread sending 1-2 more messages during the restart (delay 0 and >0), the first delivery to the new incarnation starts a third sender; quiet engine (event stream detached), receivers yield inside Receive: one worker at a time, each Receive after the previous, exactly-once, order, new incarnation gets everything behind the failed message",
@@ -196,6 +201,12 @@ func init() {
 		Register(&Job{Name: "C11/engine/multi-reply", Prop: "C11", Bound: 2, BoundT: 3, Budget: 40, BudgetT: 600,
 			Desc: "responders that reply 2 or 3 times to one request",
 			Make: func() vsched.Instance { return engRequest(multi) }})
+		odd := []reqParams{{Requesters: 1, Replies: 1, Second: true, Poke: true}, {Requesters: 1, Replies: 0, Second: true, Poke: true},
+			{Requesters: 1, Replies: 1, ViaActor: true}, {Requesters: 1, Replies: 0, ViaActor: true}, {Requesters: 1, Replies: 1, ViaActor: true, SlowReply: true},
+			{Requesters: 1, Replies: 1, Hedge: true}, {Requesters: 2, Replies: 1, Hedge: true}}
+		Register(&Job{Name: "C11/engine/odd-responders-and-requesters", Prop: "C11", Bound: 2, BoundT: 3, Budget: 40, BudgetT: 600, Shards: 7,
+			Desc: "a responder that calls Respond for a sender-less message while a request to it is pending (no addressee: must not reach that request); a request issued with Context.Request from an actor spawned WithContext(cancelled) (its own context is not the request's timeout); a request forwarded to two replicas that both Respond (two goroutines race for one response PID: one reply wins, the other dead-letters once, nobody blocks)",
+			Make: func() vsched.Instance { return engRequest(odd) }})
 		Register(&Job{Name: "C11/engine/three-requesters", Prop: "C11", Tier: "thorough", Bound: 2, BoundT: 3, Budget: 40, BudgetT: 900,
 			Desc: "3 concurrent requesters", Make: func() vsched.Instance { return engRequest(big) }})
 	}
